@@ -9,10 +9,11 @@ package chain
 // Save) the chain service makes for each delivered block, compared with the call sequence
 // the model's node (Dpos/Lib.v deliver) implies, plus best block and main chain.
 //
-// Input: {"ops":[["B",id,parent],["L",libNo],["D",id]]}; output {"obs":[{calls,err,best,main}]}.
+// Input: {"ops":[["B",id,parent],["BX",id,parent],["BR",id,parent],["L",libNo],["D",id]]}; output {"obs":[{calls,err,best,main}]}.
 import (
 	"bufio"
 	"encoding/json"
+	"errors"
 	"os"
 	"strconv"
 	"testing"
@@ -28,6 +29,7 @@ type c08ChainCons struct {
 	calls []int64
 	idOf  map[string]int
 	last  int64 // id of the block of the last Update: "the status" of this stub
+	ref   map[int64]bool // ids of the blocks IsBlockValid refuses
 }
 
 // key under which the stub persists its status through the TxWriter the chain service hands it
@@ -63,6 +65,9 @@ func (c *c08ChainCons) VerifySign(b *types.Block) error {
 }
 func (c *c08ChainCons) IsBlockValid(b *types.Block, best *types.Block) error {
 	c.calls = append(c.calls, 6, c.id(b), c.id(best))
+	if c.ref[c.id(b)] {
+		return errors.New("c08: block refused by IsBlockValid")
+	}
 	return nil
 }
 
@@ -101,7 +106,7 @@ func TestVerifC08ChainEngine(t *testing.T) {
 		testCfg.DataDir = t.TempDir() // memorydb loads/writes <DataDir>: keep every instance isolated
 		testCfg.UseTestnet = true
 		cs := NewChainService(testCfg)
-		cons := &c08ChainCons{idOf: map[string]int{}}
+		cons := &c08ChainCons{idOf: map[string]int{}, ref: map[int64]bool{}}
 		cs.SetChainConsensus(cons)
 		genesis, _ := cs.getBlockByNo(0)
 		blocks := map[int]*types.Block{0: genesis}
@@ -118,7 +123,11 @@ func TestVerifC08ChainEngine(t *testing.T) {
 				return v
 			}
 			switch kind {
-			case "B":
+			case "B", "BR":
+				// "BR": a block the consensus refuses in IsBlockValid (e.g. produced out of its slot)
+				if kind == "BR" {
+					cons.ref[int64(geti(1))] = true
+				}
 				prev := blocks[geti(2)]
 				ts++
 				bi := types.NewBlockHeaderInfoFromPrevBlock(prev, ts, testBV)
